@@ -208,22 +208,24 @@ Definition time_ok (t : tstamp) (q : Q) : bool := Qeq_bool q (Qmake (ts_ms t) 10
 
 Definition expected_runs (c : cue) : list run := runs_cue (c_payload c).
 
-Fixpoint judge_cues (rs : list region) (cs : list cue) (ps : list para) : list (Z * Z) :=
+(* the clause code of the k-th cue of the file (k from 0) is reported as clause + 1000 * k *)
+Fixpoint judge_cues (k : Z) (rs : list region) (cs : list cue) (ps : list para) : list (Z * Z) :=
   match cs, ps with
   | c :: cs', p :: ps' =>
-    (if time_ok (c_begin c) (pa_begin p) && time_ok (c_end c) (pa_end p) then [] else [(10, 0)]) ++
-    (match nth_error rs (Z.to_nat (pa_region p)) with
-     | Some r =>
-       let v := view_region r in
-       (* containment: excused by the geometry findings; mode and alignments: by none; the edge fixed by the line
-          setting: only by line-number-nonpositive *)
-       (if region_inside v then [] else [(20, region_finding (c_settings c))]) ++
-       (if region_align_ok (c_settings c) v then [] else [(21, 0)]) ++
-       (if line_edge_ok (c_settings c) v then [] else [(22, if trig_line (c_settings c) then 2 else 0)])
-     | None => [(20, 0)]
-     end) ++
-    (if runs_eq (view_para p) (expected_runs c) then [] else [(30, text_finding (c_payload c))]) ++
-    judge_cues rs cs' ps'
+    map (fun cf : Z * Z => (fst cf + 1000 * k, snd cf))
+      ((if time_ok (c_begin c) (pa_begin p) && time_ok (c_end c) (pa_end p) then [] else [(10, 0)]) ++
+       (match nth_error rs (Z.to_nat (pa_region p)) with
+        | Some r =>
+          let v := view_region r in
+          (* containment: excused by the geometry findings; mode and alignments: by none; the edge fixed by the line
+             setting: only by line-number-nonpositive *)
+          (if region_inside v then [] else [(20, region_finding (c_settings c))]) ++
+          (if region_align_ok (c_settings c) v then [] else [(21, 0)]) ++
+          (if line_edge_ok (c_settings c) v then [] else [(22, if trig_line (c_settings c) then 2 else 0)])
+        | None => [(20, 0)]
+        end) ++
+       (if runs_eq (view_para p) (expected_runs c) then [] else [(30, text_finding (c_payload c))])) ++
+    judge_cues (k + 1) rs cs' ps'
   | _, _ => []
   end.
 Fixpoint sharing (cs : list cue) (ps : list para) : bool :=
@@ -257,7 +259,7 @@ Definition judge (f : vfile) (txt : text) (o : outcome) : list (Z * Z) :=
   | OkDoc rs ps =>
     if negb (length ps =? length cs)%nat
     then [(3, if existsb (fun c => trig_empty (c_payload c)) cs then 8 else 0)]
-    else judge_cues rs cs ps ++ (if sharing cs ps then [] else [(40, 0)])
+    else judge_cues 0 rs cs ps ++ (if sharing cs ps then [] else [(40, 0)])
   end.
 (* per case: (clause, finding) pairs; the harness reads the printed list *)
 Definition cases_spec (cs : list (vfile * text * outcome)) : list (list (Z * Z)) :=
